@@ -94,3 +94,21 @@ Definition is_pathrel_nodots (t : bytes) : bool :=
          (split_on "/" (fst (span_until (fun c => Ascii.eqb c "?" || Ascii.eqb c "#") t)))
   | [] => false
   end.
+
+(* a reference with an authority but no scheme: "//x..." *)
+Definition is_scheme_rel_ref (t : bytes) : bool :=
+  forallb ref_char t &&
+  match t with
+  | a :: b :: c :: _ => Ascii.eqb a "/" && Ascii.eqb b "/" && negb (Ascii.eqb c "/")
+  | _ => false
+  end.
+Definition scheme_text (o : bytes) : bytes := fst (span_until (fun c => Ascii.eqb c ":") o).
+
+(* the text in front of the first '#', when there is one and that text is not empty and ends
+   with a byte that no parser trims (visible, not a quote) *)
+Definition frag_prefix (t : bytes) : option bytes :=
+  let (a, r) := span_until (fun c => Ascii.eqb c "#") t in
+  match r, a with
+  | _ :: _, c :: _ => let z := last a c in if visible z && negb (is_quote z) then Some a else None
+  | _, _ => None
+  end.
